@@ -508,6 +508,7 @@ def cases(ctx):
             spec2['cols'][j] = {'dt': 'obj', 'vals': [head] + [rng.choice(pool[:4] if rng.random() < 0.5 else pool) for _ in range(spec2['rows'] - 1)]}
             spec2['consolidate'] = False
             yield {'k': 'struct', 'spec': spec2, 'route': rng.choice(STRUCT_ROUTES)}
+            yield {'k': 'struct', 'spec': spec2, 'route': 'pickle', 'proto': rng.choice([2, 4, 5, 5])}
     # boundary shapes and special configurations
     for i in range(120 if quick else 600):
         specials = specials_for(rng)
@@ -980,7 +981,10 @@ def eval_struct(ctx, c):
         ckw['columns_constructor'] = sf.IndexHierarchy.from_labels
     try:
         if route in ('pickle', 'deepcopy'):
-            g = pickle.loads(pickle.dumps(f)) if route == 'pickle' else copy.deepcopy(f)
+            # every pickle protocol: protocol 5 hands contiguous non-object arrays back as read-only buffers and the others not
+            proto = [None, 2, 3, 4, 5, pickle.HIGHEST_PROTOCOL][(n * 7 + m * 3 + len(spec['cols'][0]['vals'])) % 6] if c.get('proto') is None else c['proto']
+            ctx.count(f'pickle_protocol_{proto}')
+            g = (pickle.loads(pickle.dumps(f, protocol=proto)) if proto is not None else pickle.loads(pickle.dumps(f))) if route == 'pickle' else copy.deepcopy(f)
         elif route.startswith('pairs0'):
             pairs = f.to_pairs(0)
             ilabels = list(f.index) if not pairs else [k for k, _ in pairs[0][1]]
